@@ -91,7 +91,7 @@ def main():
             # private copy of /verif per property (keeps /verif's Generated files and build output untouched)
             vcopy = f"/tmp/vcopy/rv_{p}"
             os.makedirs("/tmp/vcopy", exist_ok=True)
-            sh(f"rsync -a --delete --exclude .git --exclude seeded --exclude evidence_scratch {VERIF}/ {vcopy}/")
+            sh(f"rm -rf {vcopy} && mkdir -p {vcopy} && git -C {VERIF} archive HEAD | tar -x -C {vcopy} && rsync -a {VERIF}/lean/.lake {vcopy}/lean/")  # committed /verif (HEAD) + build cache
             rcc, outc = sh(f"./check {p} --tier quick", cwd=vcopy, env={"VERIF_REPO": wt}, timeout=3000)
             vio = [l for l in outc.split("\n") if l.startswith("VIOLATION")]
             m["res"]["checks"][p] = {"rc": rcc, "violation_lines": vio[:3], "wall_s": round(time.time() - t),
